@@ -15,6 +15,9 @@ def tiff_h(H, VERIF, name, defines, unwind, timeout=1500, solver="cadical", mem=
         h = tiff_h(H, VERIF, name, defines + ["DEV=2"], unwind, timeout, solver, mem, unwindset, rec_violation)
         h.pre = pre_sbs(VERIF)
         return h
+    unwindset = dict(unwindset or {})
+    for k, v in (("vsnprintf.0", 142), ("vsnprintf.1", 142), ("vsnprintf.2", 142), ("key_before.0", 22)):
+        unwindset.setdefault(k, v)
     return H(name, "harness/storage/tiff_file.c", repo=[HAL + "storage.c", HAL + "driver.c", "acquire-core-libs/src/acquire-device-properties/device/props/components.c"],
              env=[], defines=defines, pre=pre_tiff(VERIF), unwind=unwind, unwindset=unwindset or {}, solver=solver, timeout=timeout, mem_gb=mem,
              recursion_is_violation=rec_violation)
@@ -45,7 +48,8 @@ def pre_sbs(VERIF):
         ll = os.path.join(d, "sbs.ll"); c = os.path.join(d, "sbs_gen.c")
         gen.sh(["clang++-14", "-std=gnu++20", "-O1", "-fno-vectorize", "-fno-slp-vectorize", "-fno-unroll-loops", "-DNDEBUG"] + incs +
                ["-S", "-emit-llvm", "-o", ll, os.path.join(repo, "acquire-driver-common/src/storage/side-by-side-tiff.cpp")])
-        gen.sh([sys.executable, os.path.join(VERIF, "ir2c", "ir2c.py"), ll, c] + SBS_WANT)
+        env = dict(os.environ); env["IR2C_RPO"] = "1"
+        gen.sh([sys.executable, os.path.join(VERIF, "ir2c", "ir2c.py"), ll, c] + SBS_WANT, env=env)
         # the composite object is handed out by the harness as a TYPED static object (see tiff_file.c)
         txt = open(c).read()
         assert "malloc(496ULL)" in txt, "size of struct SideBySideTiff changed: update struct sbs in the harness"
